@@ -9,6 +9,8 @@ expected outcome from them with its own list-comprehension style definitions.
 import LndModel.Prelude.Lines
 import LndModel.C07.Model
 import LndModel.C07.Mailbox
+import LndModel.C07.Fault
+import LndModel.C07.Restart
 
 open LndModel LndModel.Lines LndModel.C07
 
@@ -259,6 +261,12 @@ structure St where
   trimmedAtRestart : Nat := 0
   resKept : Nat := 0
   gapRestarts : Nat := 0
+  expectDisk : Option MExpect := none
+  lastFault : Bool := false
+  faultRestarts : Nat := 0
+  faultAborts : Nat := 0
+  faultReads : Nat := 0
+  faultKeptCommitted : Nat := 0
   undisciplined : Nat := 0
   races : Nat := 0
   raceWinners : Nat := 0
@@ -281,6 +289,23 @@ structure St where
   mAcks : Nat := 0
   mExists : Nat := 0
   mRelayed : Nat := 0
+  -- swrestart stream: model
+  sys : Sys := Sys.init
+  -- swrestart stream: monitor (implementation answers only)
+  wDurable : List Key := []      -- in keys whose response was durably committed (signed + acked) since their add
+  wRun : List Key := []          -- in keys for which a response reached the incoming link in this run
+  wEver : List Key := []         -- … in an earlier run of the same incarnation
+  wEnts : List FEnt := []        -- packages as last dumped by the implementation
+  noClosedCheck : Bool := false
+  wOps : Nat := 0
+  wRestarts : Nat := 0
+  wRecvd : Nat := 0
+  wRedelivered : Nat := 0
+  wSigned : Nat := 0
+  wWindow : Nat := 0
+  wPartial : Nat := 0
+  wPendAcks : Nat := 0
+  wClosingDrops : Nat := 0
 
 def mismatch (s : St) (detail : String) : IO St := do
   if s.mismatches < 40 then
@@ -361,11 +386,16 @@ def monAfterRestart (s : St) (ex : MExpect) (sn : Snap) : IO St := do
     s ← monitor s "restart-exact" s!"circuits after restart: mem={keysStr pk} disk={keysStr sn.a}, durable minus purged = {keysStr (sortKeys ex.a)}"
   if sn.p.any (fun e => !e.loaded) then
     s ← monitor s "restart-loaded" "a circuit restored from disk is not marked LoadedFromDisk"
-  if !sn.c.isEmpty then
+  if !sn.c.isEmpty && !s.noClosedCheck then
     s ← monitor s "restart-closed-empty" "closed set survives a restart"
   let oGot := sortPairs (sn.o.map (fun e => (e.key, e.inKey)))
   if oGot != sortPairs ex.o then
     s ← monitor s "restart-open" s!"opened after restart = {joinStr (oGot.map (fun p => keyStr p.1 ++ ">" ++ keyStr p.2))}, expected {joinStr ((sortPairs ex.o).map (fun p => keyStr p.1 ++ ">" ++ keyStr p.2))}"
+  if s.lastFault then
+    for p in ex.k do
+      if !(sn.k.contains p) then
+        s ← monitor s "committed-keystone-trimmed" s!"a start during which a read of the pending remote commitment failed reported success and removed keystone {keyStr p.1}>{keyStr p.2} whose HTLC is on a commitment"
+    s := { s with lastFault := false }
   if sortPairs sn.k != sortPairs ex.k then
     s ← monitor s "restart-keystones" s!"keystone bucket after restart = {joinStr ((sortPairs sn.k).map (fun p => keyStr p.1 ++ ">" ++ keyStr p.2))}, expected {joinStr ((sortPairs ex.k).map (fun p => keyStr p.1 ++ ">" ++ keyStr p.2))}"
   -- half-open rollback, stated directly
@@ -519,6 +549,88 @@ def xRecv (s : St) (sid : Nat) (m : List Pkt) (impl : List (Nat × List Nat)) : 
     mismatch s s!"mailbox recv: model={want.map (fun r => s!"{r.1}:{uidsStr r.2}")} impl={impl.map (fun r => s!"{r.1}:{uidsStr r.2}")}"
   else pure s
 
+/-! ### swrestart stream -/
+
+def refStr (r : Ref) : String := s!"{r.chan}:{r.height}:{r.idx}"
+
+def ref? (s : String) : Option Ref :=
+  match s.splitOn ":" with
+  | [a, b, c] => do
+    let x ← nat? a
+    let y ← nat? b
+    let z ← nat? c
+    pure ⟨x, y, z⟩
+  | _ => none
+
+/-- `2:5:0/2.0/s/1` -/
+def fent? (s : String) : Option FEnt :=
+  match s.splitOn "/" with
+  | [r, o, t, a] => do
+    let rf ← ref? r
+    let ok ← key? o
+    pure ⟨rf, ok, t == "s", a == "1"⟩
+  | _ => none
+
+def fentStr (e : FEnt) : String :=
+  s!"{refStr e.ref}/{keyStr e.out}/{if e.settle then "s" else "f"}/{b01 e.acked}"
+
+/-- `1.0@2:5:0:s` -/
+def resp? (s : String) : Option Resp :=
+  match s.splitOn "@" with
+  | [k, rest] =>
+    match rest.splitOn ":" with
+    | [a, b, c, t] => do
+      let key ← key? k
+      let rf ← ref? s!"{a}:{b}:{c}"
+      if t == "s" || t == "f" then pure ⟨key, rf, t == "s"⟩ else none
+    | _ => none
+  | _ => none
+
+def respStr (r : Resp) : String :=
+  s!"{keyStr r.inKey}@{refStr r.ref}:{if r.settle then "s" else "f"}"
+
+def refLt (a b : Ref) : Bool :=
+  decide (a.chan < b.chan) || (decide (a.chan = b.chan) && (decide (a.height < b.height) ||
+    (decide (a.height = b.height) && decide (a.idx < b.idx))))
+
+def insertEnt (e : FEnt) : List FEnt → List FEnt
+  | [] => [e]
+  | x :: xs => if refLt e.ref x.ref then e :: x :: xs else x :: insertEnt e xs
+
+def wInSids : List Nat := [1, 3]
+
+def renderSys (σ : Sys) : String :=
+  let e := (σ.ents.foldr insertEnt []).map fentStr
+  let pa := σ.pendAcks.map refStr
+  let per (l : List Resp) := wInSids.flatMap (fun sid => (l.filter (fun r => r.inKey.chan == sid)).map respStr)
+  let sg := wInSids.flatMap (fun sid => (σ.signed.filter (fun k => k.chan == sid)).map keyStr)
+  s!"E={joinStr e} PA={joinStr pa} MB={joinStr (per σ.mbox)} IB={joinStr (per σ.inbox)} SG={joinStr sg} un=0"
+
+/-- the model's link `sid` takes everything out of its mailbox. -/
+def sysRecvAll (σ : Sys) (sid : Nat) : Nat → Sys × List Resp
+  | 0 => (σ, [])
+  | fuel + 1 =>
+    match popFirst (fun r : Resp => decide (r.inKey.chan = sid)) σ.mbox with
+    | none => (σ, [])
+    | some (r, _) =>
+      let x := sysRecvAll (sstep σ (.recv sid)) sid fuel
+      (x.1, r :: x.2)
+
+def sysSignN (σ : Sys) (sid : Nat) : Nat → Sys × List Key
+  | 0 => (σ, [])
+  | n + 1 =>
+    match popFirst (fun r : Resp => decide (r.inKey.chan = sid)) σ.inbox with
+    | none => (σ, [])
+    | some (r, _) =>
+      let x := sysSignN (sstep σ (.sign sid)) sid n
+      (x.1, r.inKey :: x.2)
+
+/-- `2.0:s` -/
+def pkgEnt? (s : String) : Option (Key × Bool) :=
+  match s.splitOn ":" with
+  | [k, t] => (key? k).map (fun x => (x, t == "s"))
+  | _ => none
+
 /-! ### one trace line -/
 
 def step (s : St) (line : String) : IO St := do
@@ -535,9 +647,11 @@ def step (s : St) (line : String) : IO St := do
   | "CASE" :: id :: rest =>
     let s := { s with caseId := id, kind := (kv? rest "kind").getD "", model := State.init, xOff := false,
                       prev := {}, live := [], responded := [], disciplined := true,
-                      expectSame := none, expectRestart := none, cases := s.cases + 1,
+                      expectSame := none, expectRestart := none, expectDisk := none, cases := s.cases + 1,
                       mch := fun _ => Chan.empty, mRound := [], mInfo := [], mUnacked := [], mAcked := [],
-                      mUp := [], mLive := [], mParkedL := [], mQueued := [] }
+                      mUp := [], mLive := [], mParkedL := [], mQueued := [],
+                      sys := Sys.init, wDurable := [], wRun := [], wEver := [], wEnts := [],
+                      noClosedCheck := false, lastFault := false }
     if s.samples < 3 && s.kind != "race" && !(s.kind.startsWith "script") then
       IO.println s!"SAMPLE {line}"
       return { s with samples := s.samples + 1 }
@@ -764,27 +878,68 @@ def step (s : St) (line : String) : IO St := do
     let some cl := (kv? [clw] "closed").bind (list? mclosed?) | mismatch s "bad closed list"
     let some ac := (kv? [acw] "active").bind (list? mactive?) | mismatch s "bad active list"
     let some res := (kv? [resw] "res").bind (list? key?) | mismatch s "bad res list"
+    -- fault injection: the k-th (1-based) read of a pending remote commitment fails
+    let fail : Option Nat := ((kv? ws "fail").bind nat?).map (· - 1)
     let r := resOf ws
     let mut s := s
-    if r != "ok" then
-      s ← mismatch s s!"restart: impl={r}"
     let env : Env := { closed := cl.map (fun c => ⟨c.chan, c.pend⟩),
                        active := ac.map (fun a => ⟨a.chan, a.pend, a.remote, a.pendingIdx⟩),
                        resMsg := res }
-    s := { s with model := restart env s.model }
+    let (m', mErr) := restartF env fail s.model
+    let mRes := if mErr then "rderr" else "ok"
+    if mRes != r then
+      s ← mismatch s s!"restart fail={fail}: model={mRes} impl={r}"
     let ex := monRestart { closed := cl, active := ac, res := res } s.prev.a s.prev.k
-    return { s with expectRestart := some ex }
+    if fail.isSome then
+      -- the class the fault matters for: open keystones between the revoked and the pending index
+      let between := ac.any (fun a => !a.pend && a.chan != 0 && (match a.pendingIdx with
+        | some p => s.prev.k.any (fun q => q.1.chan == a.chan && a.remote ≤ q.1.id && q.1.id < p)
+        | none => false))
+      s := { s with faultRestarts := s.faultRestarts + 1, lastFault := true,
+                    faultKeptCommitted := s.faultKeptCommitted + (if between then 1 else 0) }
+    if r == "rderr" then
+      -- aborted start: the disk is dumped next (`dsnap`), then the harness starts again
+      return { s with model := m', expectDisk := some ex, faultAborts := s.faultAborts + 1 }
+    else
+      -- a start that reports success must have produced the fault-free result
+      s := { s with model := if mErr then restart env s.model else m' }
+      return { s with expectRestart := some ex }
+  | "dsnap" :: rest =>
+    let some a := (kv? rest "A").bind (list? key?) | mismatch s "bad dsnap"
+    let some k := (kv? rest "K").bind (list? (pair? ">")) | mismatch s "bad dsnap"
+    let mut s := s
+    if sortKeys a != sortKeys s.model.adds || sortPairs k != sortPairs s.model.ks then
+      s ← mismatch s s!"disk after aborted start: model A={keysStr (sortKeys s.model.adds)} K={(sortPairs s.model.ks).map (fun p => keyStr p.1 ++ ">" ++ keyStr p.2)} impl {" ".intercalate rest}"
+    match s.expectDisk with
+    | some ex =>
+      -- whatever the aborted start wrote, it may not have removed a circuit or a keystone that a
+      -- fault-free start keeps (in particular keystones below the true next htlc index)
+      for p in ex.k do
+        if !(k.contains p) then
+          s ← monitor s "committed-keystone-trimmed" s!"a start aborted by a failing read removed keystone {keyStr p.1}>{keyStr p.2} whose HTLC is on a commitment"
+      for x in ex.a do
+        if !(a.contains x) then
+          s ← monitor s "restart-exact" s!"a start aborted by a failing read removed circuit {keyStr x}"
+    | none => pure ()
+    return { s with expectDisk := none, lastFault := false, prev := { s.prev with a := a, k := k } }
   | "nextidx" :: rw :: pw :: _ =>
     let some rI := nat? rw | mismatch s "bad idx"
     let p := if pw == "-" then none else nat? pw
+    let fault := kv? ws "fail" == some "1"
     let r := resOf ws
-    let m := nextLocalHtlcIndex ⟨1, false, rI, p⟩
+    let tip : TipRead := if fault then .readErr else match p with | some n => .pending n | none => .noPending
+    let m := match nextLocalHtlcIndexE rI tip with | some n => toString n | none => "err"
     let mut s := s
-    if toString m != r then
+    if m != r then
       s ← mismatch s s!"nextidx: model={m} impl={r}"
-    let want := match p with | some n => n | none => rI
-    if toString want != r then
-      s ← monitor s "next-index" s!"NextLocalHtlcIndex(remote={rI}, pending={pw}) = {r}"
+    if fault then
+      s := { s with faultReads := s.faultReads + 1 }
+      if r != "err" then
+        s ← monitor s "read-error-swallowed" s!"NextLocalHtlcIndex(remote={rI}, pending={pw}) = {r} although reading the pending remote commitment failed: the error must surface, not fall back to the revoked commitment's index"
+    else
+      let want := match p with | some n => n | none => rI
+      if toString want != r then
+        s ← monitor s "next-index" s!"NextLocalHtlcIndex(remote={rI}, pending={pw}) = {r}"
     return s
   | "msnap" :: rest =>
     let m := renderChans s.mch
@@ -918,6 +1073,151 @@ def step (s : St) (line : String) : IO St := do
   | "mrestart" :: _ =>
     return { s with mch := fun _ => Chan.empty, mRound := [], mUnacked := [], mUp := [], mLive := [],
                     mParkedL := [], mQueued := [] }
+  | "wsnap" :: rest =>
+    let impl := " ".intercalate rest
+    let m := renderSys s.sys
+    let mut s := s
+    if m != impl then
+      s ← mismatch s s!"switch state: model[{m}] impl[{impl}]"
+    let ents := ((kv? rest "E").bind (list? fent?)).getD []
+    let pa := ((kv? rest "PA").bind (list? ref?)).getD []
+    return { s with wEnts := ents, wPendAcks := s.wPendAcks + (if pa.isEmpty then 0 else 1) }
+  | "wadd" :: kw :: ow :: _ =>
+    let s := { s with ops := s.ops + 1, wOps := s.wOps + 1 }
+    let some k := key? kw | mismatch s "bad key"
+    let some o := key? ow | mismatch s "bad key"
+    let r := resOf ws
+    let mut s := s
+    let added := (commit s.sys.cm [k] false).2.adds == [k]
+    let σ1 := sstep s.sys (.commit [k] false)
+    let opened := (openCircuits σ1.cm [(k, o)] false).2 == .ok
+    let σ2 := sstep σ1 (.open [(k, o)] false)
+    let mRes := if added && opened then "ok" else "refused"
+    if mRes != r then
+      s ← mismatch s s!"wadd {kw} {ow}: model={mRes} impl={r}"
+    s := { s with sys := σ2, model := σ2.cm }
+    if r == "ok" then
+      if s.live.contains k then
+        s ← monitor s "forward-once" s!"circuit {keyStr k} handed to the outgoing link again while its earlier forward is still live"
+      -- a new incarnation of the in key
+      s := { s with live := k :: s.live, wDurable := eraseAll s.wDurable [k], wRun := eraseAll s.wRun [k],
+                    wEver := eraseAll s.wEver [k], responded := eraseAll s.responded [k],
+                    nontrivial := s.nontrivial + 1 }
+    return s
+  | "wpkg" :: cw :: hw :: ew :: _ =>
+    let s := { s with ops := s.ops + 1, wOps := s.wOps + 1 }
+    let some c := nat? cw | mismatch s "bad chan"
+    let some h := nat? hw | mismatch s "bad height"
+    let some l := list? pkgEnt? ew | mismatch s "bad entries"
+    let r := resOf ws
+    let mut s := s
+    if r != "ok" then
+      s ← mismatch s s!"wpkg: impl={r}"
+    let σ := sstep s.sys (.pkg c h l)
+    return { s with sys := σ, model := σ.cm, nontrivial := s.nontrivial + 1 }
+  | "wfwd" :: cw :: hw :: _ =>
+    let s := { s with ops := s.ops + 1, wOps := s.wOps + 1 }
+    let some c := nat? cw | mismatch s "bad chan"
+    let some h := nat? hw | mismatch s "bad height"
+    let r := resOf ws
+    let mut s := s
+    if r != "ok" then
+      s ← mismatch s s!"wfwd: impl={r}"
+    let σ := sstep s.sys (.fwd c h)
+    -- statistics: entries that met a circuit already answered in this run
+    let closing := (s.sys.ents.filter (fun e => e.ref.chan == c && e.ref.height == h && !e.acked &&
+      (match closeCircuit s.sys.cm e.out with | (_, .closing) => true | _ => false))).length
+    return { s with sys := σ, model := σ.cm, wClosingDrops := s.wClosingDrops + closing,
+                    nontrivial := s.nontrivial + 1 }
+  | "wrecv" :: sw :: _ =>
+    let s := { s with ops := s.ops + 1, wOps := s.wOps + 1 }
+    let some sid := nat? sw | mismatch s "bad sid"
+    let r := resOf ws
+    let mut s := s
+    let (σ, mGot) := sysRecvAll s.sys sid (s.sys.mbox.length + 1)
+    let mStr := joinStr (mGot.map respStr)
+    if mStr != r then
+      s ← mismatch s s!"wrecv {sid}: model={mStr} impl={r}"
+    s := { s with sys := σ, model := σ.cm }
+    -- monitor, on what the implementation handed to the incoming link
+    match list? resp? r with
+    | none => s ← monitor s "delivery-garbled" s!"incoming link {sid} received something that is not a settle/fail with a destination reference: {r}"
+    | some got =>
+      for x in got do
+        let k := x.inKey
+        if k.chan != sid then
+          s ← monitor s "mailbox-wrong-link" s!"response for {keyStr k} reached link {sid}"
+        if s.wDurable.contains k then
+          s ← monitor s "response-after-durable-ack" s!"a settle/fail for incoming HTLC {keyStr k} (package entry {refStr x.ref}) was relayed to the incoming link although an earlier response for it is durably committed on the incoming channel (its SettleFailRef is acked)"
+        else if s.wRun.contains k then
+          s ← monitor s "respond-once" s!"a second settle/fail for incoming HTLC {keyStr k} reached the incoming link in one run"
+        if s.wEver.contains k && !(s.wRun.contains k) then
+          s := { s with wRedelivered := s.wRedelivered + 1 }
+        s := { s with wRun := if s.wRun.contains k then s.wRun else k :: s.wRun,
+                      wEver := if s.wEver.contains k then s.wEver else k :: s.wEver,
+                      wRecvd := s.wRecvd + 1, nontrivial := s.nontrivial + 1 }
+    return s
+  | "wsign" :: sw :: nw :: _ =>
+    let s := { s with ops := s.ops + 1, wOps := s.wOps + 1 }
+    let some sid := nat? sw | mismatch s "bad sid"
+    let some n := nat? nw | mismatch s "bad count"
+    let r := resOf ws
+    let implKeys := ((kv? (afterArrow ws) "keys").bind (list? key?)).getD []
+    let mut s := s
+    let (σ, mKeys) := sysSignN s.sys sid n
+    if r != "ok" || mKeys != implKeys then
+      s ← mismatch s s!"wsign: model=ok keys={keysStr mKeys} impl={r} keys={keysStr implKeys}"
+    s := { s with sys := σ, model := σ.cm }
+    for k in implKeys do
+      if s.wDurable.contains k then
+        s ← monitor s "response-committed-twice" s!"the incoming link committed a second settle/fail for HTLC {keyStr k}"
+      s := { s with wDurable := k :: s.wDurable, wSigned := s.wSigned + 1, nontrivial := s.nontrivial + 1 }
+    return s
+  | "wdel" :: sw :: ksw :: wfw :: _ =>
+    let s := { s with ops := s.ops + 1, wOps := s.wOps + 1 }
+    let some sid := nat? sw | mismatch s "bad sid"
+    let some keys := list? key? ksw | mismatch s "bad keys"
+    let wf := wfw == "wf=1"
+    let r := resOf ws
+    let mut s := s
+    let mKeys := s.sys.signed.filter (fun k => k.chan == sid)
+    let mRes := if wf then "wferr" else "ok"
+    if mRes != r || mKeys != keys then
+      s ← mismatch s s!"wdel: model={mRes} keys={keysStr mKeys} impl={r} keys={keysStr keys}"
+    let σ := sstep s.sys (.del sid wf)
+    s := { s with sys := σ, model := σ.cm }
+    if r == "ok" then
+      s := monDeleted s keys
+      s := { s with wRun := eraseAll s.wRun keys, dOk := s.dOk + 1,
+                    nontrivial := s.nontrivial + (if keys.isEmpty then 0 else 1) }
+    else if r == "wferr" && wf then
+      s := { s with expectSame := some ("delete", s.prev.raw), dWf := s.dWf + 1 }
+    else
+      s ← monitor s "delete-error" s!"unexpected DeleteCircuits answer {r}"
+    return s
+  | "wack" :: wfw :: _ =>
+    let s := { s with ops := s.ops + 1, wOps := s.wOps + 1 }
+    let σ := sstep s.sys (.swAck (wfw == "wf=1"))
+    return { s with sys := σ, model := σ.cm }
+  | "wrestart" :: _ :: acw :: _ =>
+    let s := { s with ops := s.ops + 1, wOps := s.wOps + 1, wRestarts := s.wRestarts + 1, restarts := s.restarts + 1 }
+    let some ac := (kv? [acw] "active").bind (list? mactive?) | mismatch s "bad active list"
+    let r := resOf ws
+    let mut s := s
+    if r != "ok" then
+      s ← mismatch s s!"wrestart: impl={r}"
+    let env : Env := { closed := [], active := ac.map (fun a => ⟨a.chan, a.pend, a.remote, a.pendingIdx⟩),
+                       resMsg := [] }
+    -- statistics on the implementation's own last dump: the crash window of the property
+    let window := s.wEnts.any (fun e => e.acked && s.prev.o.any (fun x => x.key == e.out))
+    let partialPkg := s.wEnts.any (fun e => e.acked && s.wEnts.any (fun e' =>
+      e'.ref.chan == e.ref.chan && e'.ref.height == e.ref.height && !e'.acked))
+    let σ := sstep s.sys (.restart env)
+    let ex := monRestart { closed := [], active := ac, res := [] } s.prev.a s.prev.k
+    return { s with sys := σ, model := σ.cm, expectRestart := some ex, noClosedCheck := true,
+                    wRun := [], wWindow := s.wWindow + (if window then 1 else 0),
+                    wPartial := s.wPartial + (if partialPkg then 1 else 0),
+                    nontrivial := s.nontrivial + 1 }
   | "race" :: _ =>
     let s := { s with ops := s.ops + 1, races := s.races + 1, xOff := true }
     let rs := (afterArrow ws).headD ""
@@ -971,6 +1271,10 @@ def main : IO Unit := do
   IO.println s!"STAT restart_keystones_trimmed={s.trimmedAtRestart}"
   IO.println s!"STAT restart_keystones_kept_for_resolution={s.resKept}"
   IO.println s!"STAT restart_bounds_with_gap={s.gapRestarts}"
+  IO.println s!"STAT restarts_with_failing_commit_tip_read={s.faultRestarts}"
+  IO.println s!"STAT restarts_aborted_by_read_error={s.faultAborts}"
+  IO.println s!"STAT fault_restarts_with_keystones_between_revoked_and_pending_index={s.faultKeptCommitted}"
+  IO.println s!"STAT next_index_calls_with_failing_read={s.faultReads}"
   IO.println s!"STAT undisciplined_cases={s.undisciplined}"
   IO.println s!"STAT races={s.races}"
   IO.println s!"STAT race_winners={s.raceWinners}"
@@ -982,5 +1286,14 @@ def main : IO Unit := do
   IO.println s!"STAT mailbox_acks_of_received_responses={s.mAcks}"
   IO.println s!"STAT mailbox_duplicates_refused={s.mExists}"
   IO.println s!"STAT mailbox_responses_relayed_by_switch={s.mRelayed}"
+  IO.println s!"STAT swrestart_ops={s.wOps}"
+  IO.println s!"STAT swrestart_node_restarts={s.wRestarts}"
+  IO.println s!"STAT swrestart_restarts_with_acked_entry_of_open_circuit={s.wWindow}"
+  IO.println s!"STAT swrestart_restarts_with_partially_acked_package={s.wPartial}"
+  IO.println s!"STAT swrestart_responses_received_by_incoming_links={s.wRecvd}"
+  IO.println s!"STAT swrestart_responses_relayed_again_after_restart={s.wRedelivered}"
+  IO.println s!"STAT swrestart_responses_committed={s.wSigned}"
+  IO.println s!"STAT swrestart_duplicates_dropped_circuit_closing={s.wClosingDrops}"
+  IO.println s!"STAT swrestart_snapshots_with_pending_settle_fail_acks={s.wPendAcks}"
   IO.println s!"STAT mismatches={s.mismatches}"
   IO.println s!"STAT monitor_failures={s.monitorFails}"
